@@ -9,12 +9,12 @@ HERE = os.path.dirname(os.path.dirname(os.path.abspath(__file__)))
 CHECKS = {
  "C01": (True,
    'bounded exhaustive exploration of the real API in a statement-counting instrumented build: all token sequences / byte strings / edit neighbourhoods up to a bound x six operations, plus exact step/allocation growth on adversarial families',
-   'Every token sequence <= 4/5 over the 28-token alphabet, every byte string <= 4/6 over 16 lexer-class representatives and <= 5/7 over 9 UTF-8 fragment bytes, every 1-edit neighbour of every depth-1 tree text, each with and without default field, is run through Parse, ToPostgres, ToParameterizedPostgres and (on accepted trees) String, GoString, json.Marshal under recover, in a build where every statement of the library increments a counter: a panic, a budget overrun (2x10^6 statements; need < 10^4) or a %! marker is a violation. 4 872 adversarial families frame(block^n) (812 blocks x 6 frames, incl. a fielded group under a default field) are run for n doubling from 16 to 1 024 / 4 096 tokens with exact statement and allocation counts; growth beyond 9x per doubling (from n=64) or beyond 20x the count at the previous size is a violation, with early exit. Added later: token sequences over a format-verb alphabet (values spelling %d %s %v with ^ ~ and numbers) to length 5/7, number-named fields in groups to length 7; a worker killed by a Go runtime fatal error (stack exhaustion) is diagnosed through a case journal and reported as clause fatal.',
+   'Every token sequence <= 4/5 over the 28-token alphabet, every byte string <= 4/6 over 16 lexer-class representatives and <= 5/7 over 9 UTF-8 fragment bytes, every 1-edit neighbour of every depth-1 tree text, each with and without default field, is run through Parse, ToPostgres, ToParameterizedPostgres and (on accepted trees) String, GoString, json.Marshal under recover, in a build where every statement of the library increments a counter: a panic, a budget overrun (2x10^6 statements; need < 10^4) or a %! marker is a violation. 4 872 adversarial families frame(block^n) (812 blocks x 6 frames, incl. a fielded group under a default field) are run for n doubling from 16 to 1 024 / 4 096 tokens with exact statement and allocation counts; growth beyond 9x per doubling (from n=64) or beyond 20x the count at the previous size is a violation, with early exit. Added later: token sequences over a format-verb alphabet (values spelling %d %s %v with ^ ~ and numbers) to length 5/7, number-named fields in groups to length 7; every ASCII punctuation character outside the syntax; a worker killed by a Go runtime fatal error (stack exhaustion) is diagnosed through a case journal and reported as clause fatal.',
    "Polynomial time is decided as bounded growth on the enumerated families up to the length bound, not proved asymptotically. Instrumentation is regenerated from /repo's working tree on every run (go build -overlay).",
    "4/C01"),
  "C02": (True,
    "bounded exhaustive exploration of both renderers over all concatenations of hostile fragments in every value slot and lexical form plus all accepted token sequences, each output re-read by PostgreSQL's own grammar and scanner (confinement + whitelist reference)",
-   "Every concatenation of <= 2 (thorough 3 on the exposed slots) of 35 hostile fragments (quotes, separators, comment openers, casts, NaN/Inf, NUL, invalid UTF-8, 64-byte runs, format/template placeholders) is placed in each of 8 slots (equality/comparison value, range bounds, list element, bare term, field name, default-field name) in each lexical form that can carry it (quoted, backslash-escaped, raw word) and rendered inline and parameterised; so is every accepted token sequence <= 4/5 with and without default field. Every successful render is parsed inside SELECT 1 FROM t WHERE (<sql>) by PostgreSQL 15's grammar: one statement, everything but the WHERE clause protobuf-equal to the template, no comment or ; token, only whitelisted node kinds, column references ⊆ names the harness wrote, string constants ⊆ values it wrote, numeric constants equal to its numbers, no user-derived constant in parameterised SQL except the documented '*'. Added later: 40 fragments (valid multi-byte text, multi-byte runs of 63/64/66 bytes).",
+   "Every concatenation of <= 2 (thorough 3 on the exposed slots) of 35 hostile fragments (quotes, separators, comment openers, casts, NaN/Inf, NUL, invalid UTF-8, 64-byte runs, format/template placeholders) is placed in each of 8 slots (equality/comparison value, range bounds, list element, bare term, field name, default-field name) in each lexical form that can carry it (quoted, backslash-escaped, raw word) and rendered inline and parameterised; so is every accepted token sequence <= 4/5 with and without default field. Every successful render is parsed inside SELECT 1 FROM t WHERE (<sql>) by PostgreSQL 15's grammar: one statement, everything but the WHERE clause protobuf-equal to the template, no comment or ; token, only whitelisted node kinds, column references ⊆ names the harness wrote, string constants ⊆ values it wrote, numeric constants equal to its numbers, no user-derived constant in parameterised SQL except the documented '*'. Added later: 44 fragments (valid multi-byte text, multi-byte runs of 63/64/66 bytes, non-finite number words in odd letter case) in 10 slots (also the literal part of a wildcard pattern and the body of a regexp).",
    'Grammar-level only (no analysis-time typing); render errors are acceptable; names and values are known to the harness because it built the query (no reliance on Parse).',
    "4/C02"),
  "C03": (True,
@@ -69,12 +69,12 @@ CHECKS = {
    "4/C12"),
  "C13": (True,
    'bounded exhaustive exploration of the decoder and the validated-expression operations over all byte strings of a JSON alphabet and all schema documents to nesting depth 2 (children by shape signature)',
-   "Every byte string <= 4/5 over 21 JSON symbols (punctuation, digits, letters, the schema's key words) and every document {left, operator, right, extras} over 22 leaf values x 22 operator names x (values ∪ 243 boundary objects) is decoded by the real UnmarshalJSON under recover; whatever decodes and validates is printed, re-encoded and rendered both ways under recover. Depth 2 pairs every representative of a decoded-shape signature (≈1 000 validated, ≈2 000 all) with every plain value and every coarse representative. Added later: documents that fail Validate and would make an operation panic, buried under 2..1025 levels of four wrappers; SQL-hostile strings inside arrays as bounds; fatal crashes diagnosed as in C01.",
+   "Every byte string <= 4/5 over 21 JSON symbols (punctuation, digits, letters, the schema's key words) and every document {left, operator, right, extras} over 22 leaf values x 22 operator names x (values ∪ 243 boundary objects) is decoded by the real UnmarshalJSON under recover; whatever decodes and validates is printed, re-encoded and rendered both ways under recover. Depth 2 pairs every representative of a decoded-shape signature (≈1 000 validated, ≈2 000 all) with every plain value and every coarse representative. Added later: documents that fail Validate and would make an operation panic, buried under 2..1025 levels of four wrappers; SQL-hostile strings inside arrays as bounds; boundary-shaped objects inside boundary members; list-element / range-bound / array wrappers; fatal crashes diagnosed as in C01.",
    'Depth-2 children are abstracted by shape signature (operator, dynamic types, string classes the code branches on, render outcome), recomputed from the implementation on every run; depth 1 is exhaustive without abstraction.',
    "4/C13"),
  "C14": (True,
    "stateless model checking of the real library under a hand-written cooperative scheduler: statement points inserted by source instrumentation, all schedules up to a preemption bound for all ordered operation pairs on colliding inputs; plus exhaustive 2-call sequences against fresh-process references; free-running -race run as complement",
-   "The library source is instrumented from the working tree (a vsched.Point before every statement, via go build -overlay); harness threads run one at a time and the explorer enumerates every schedule with <= 1 preemption before any statement for all 121 ordered pairs of the 11 operations on a query that drives every shared table (same shared *Expression, same package-level driver), for 16 pairs of text operations on two different long queries (and 3-thread variants), every schedule with 2 preemptions where the second sits at a statement naming a package-level variable, 3 preemptions at such statements, and 3-thread scenarios at 1 preemption (thorough: 3 queries, 2 preemptions at function entries / anywhere for heavy pairs). Every schedule starts from the same history (a checked sequential prelude); per schedule: no panic, each thread's result equals its sequential reference, shared expressions DeepEqual to a fresh parse; the first schedule of every scenario is replayed and compared; real locks inside the library are survived (stall detection, free-running completion). E1: all 420k two-call sequences over 11 ops x 59 queries (incl. pairs a normalising cache would confuse) in one process against references computed in fresh processes. Added later: returned values (expression, parameter slice, encoded bytes) are read again after every later call of a sequence; a second value of the default-field option on the other thread; long value lists, a 140-term query, lower-case keywords as scenario inputs; the README's driver customisation as an operation.",
+   "The library source is instrumented from the working tree (a vsched.Point before every statement, via go build -overlay); harness threads run one at a time and the explorer enumerates every schedule with <= 1 preemption before any statement for all 121 ordered pairs of the 11 operations on a query that drives every shared table (same shared *Expression, same package-level driver), for 16 pairs of text operations on two different long queries (and 3-thread variants), every schedule with 2 preemptions where the second sits at a statement naming a package-level variable, 3 preemptions at such statements, and 3-thread scenarios at 1 preemption (thorough: 3 queries, 2 preemptions at function entries / anywhere for heavy pairs). Every schedule starts from the same history (a checked sequential prelude); per schedule: no panic, each thread's result equals its sequential reference, shared expressions DeepEqual to a fresh parse; the first schedule of every scenario is replayed and compared; real locks inside the library are survived (stall detection, free-running completion). E1: all 420k two-call sequences over 11 ops x 59 queries (incl. pairs a normalising cache would confuse) in one process against references computed in fresh processes. Added later: returned values (expression, parameter slice, encoded bytes) are read again after every later call of a sequence; a second value of the default-field option on the other thread; long value lists, a 140-term query, lower-case keywords as scenario inputs; the README's driver customisation as an operation; shared expressions built through the constructors with values Parse never produces.",
    "Granularity is the Go statement; torn writes inside one statement and races that do not change a result within the bound are left to the free-running -race complement (same bodies, 8 goroutines, GORACE=halt_on_error), which is reported but is not the deciding step.",
    "4/C14"),
  "C15": (True,
